@@ -1002,6 +1002,51 @@ def old_empty_edges(ctx, body):
             if tb != t["otherwise"] and v == 0:
                 out[(bb, tb)] = not empty_if_true
         out[(bb, t["otherwise"])] = empty_if_true
+    # a flag that remembers the test: `let mut drop = false; if old.len() == 0 { drop = true } .. if drop { .. }` — every `true` it is ever
+    # given is given on an edge where the old table was found empty, and nothing touches the tables between there and the test of the flag
+    direct = dict(out)
+    if direct:
+        from rules_protocol import between_blocks
+        for bb in body.reachable():
+            t = body.term(bb)
+            if t["k"] != "switch" or (bb, t["otherwise"]) in out or body.is_cleanup(bb) or t["discr"]["k"] not in ("copy", "move") or t["discr"]["place"]["proj"]:
+                continue
+            f = t["discr"]["place"]["local"]
+            hops = 0
+            while hops < 6:
+                ds = [x for x in body.defs().get(f, []) if x[1] in ("assign", "call") and not body.is_cleanup(x[0].bb)]
+                if len(ds) == 1 and ds[0][1] == "assign" and ds[0][2]["rv"]["k"] == "use" and ds[0][2]["rv"]["op"]["k"] in ("copy", "move") \
+                        and not ds[0][2]["rv"]["op"]["place"]["proj"]:
+                    f = ds[0][2]["rv"]["op"]["place"]["local"]
+                    hops += 1
+                    continue
+                break
+            if f == 0 or 1 <= f <= body.arg_count or ctx.facts.types[body.locals[f]["ty"]].get("s") != "bool":
+                continue
+            ds = [x for x in body.defs().get(f, []) if not body.is_cleanup(x[0].bb)]
+            if len(ds) < 2 or any(x[1] != "assign" or x[2]["rv"]["k"] != "use" or x[2]["rv"]["op"]["k"] != "const" for x in ds):
+                continue
+            trues = [x for x in ds if x[2]["rv"]["op"].get("val") == 1]
+            if not trues or len(trues) == len(ds):
+                continue
+            ok = True
+            for x in trues:
+                xb = x[0].bb
+                if not any(v is True and (e[1] == xb or e[1] in body.dom().get(xb, set())) and body.preds(e[1], True) == [e[0]] for e, v in direct.items()):
+                    ok = False
+                    break
+                for y in between_blocks(body, xb, bb) | {xb}:
+                    ty_ = body.term(y)
+                    if ty_["k"] == "call" and not body.is_cleanup(y):
+                        cy = ctx.call_at(body, y)
+                        for i_, a_ in enumerate(cy.args):
+                            if a_["k"] in ("copy", "move"):
+                                at_ = ctx.facts.types[a_["place"]["ty"]]
+                                q_ = cy.arg_path(i_)
+                                if at_.get("k") == "ref" and at_.get("mut") and q_ is not None and (is_self_s(ctx, body, q_) or ctx.role(body, q_) in (MAIN, OLD, LEFT, CURSOR)):
+                                    ok = False
+            if ok:
+                out[(bb, t["otherwise"])] = True
     return out
 
 
@@ -1055,6 +1100,7 @@ def rule_t_mover(ctx):
                     for (x2, s2), e2 in ee.items():
                         if x2 == x and e2 is not True:
                             ok_edges.add((x2, s2))
+        ok_edges |= n_edges       # an edge on which no old table is pending: nothing left to test or free
         w = _must_pass(body, [exh[1]], cleared, ok_edges)
         if w is not None:
             R.viol("%s:bounded:post-loop-empty-check" % path, body.where(Loc(exh[0], 0)),
